@@ -90,7 +90,7 @@ impl<const shift: u8> hb_set_digest_ext for hb_set_digest_bits_pattern_t<shift> 
             return false;
         }
 
-        if (b.0 as mask_t >> shift) - (a.0 as mask_t >> shift)
+        if (b.0 as mask_t >> shift).wrapping_sub(a.0 as mask_t >> shift)
             >= hb_set_digest_bits_pattern_t::<shift>::mask_bits() - 1
         {
             self.mask = mask_t::MAX;
